@@ -4,7 +4,7 @@ Three routines behind one harness binary / one model dispatch (leading tag in th
   (0 file a b depth (alphabet) (extra seqs))   FileView on [a,b) and on the isolated range, every op sequence
                                                of length `depth` over the alphabet (prefixes are observed too)
   (1 file (n ...))                             split_file_into_chunks_by_size for every chunk count
-  (2 ((chrom len) ...) final_newline)          index_chroms on a synthesised BED file
+  (2 ((chrom len) ...) final_newline [filler]) index_chroms on a synthesised BED file (filler 1: lines padded with U+00E9)
 Exhaustive small scope, as the property asks."""
 import itertools
 from ..runner import Prop
@@ -54,17 +54,19 @@ class C18(Prop):
     RULE = ("exhaustive small scope. view: every window 0<=a<=b<=len of files of 0..L bytes (plus windows reaching past the "
             "end, a>b, a>=2^63) x every op sequence of length d over eight fixed six-op alphabets and random alphabets from a pool "
             "of 41 ops with boundary arguments (0, +-1, window length +-1, 100, u64::MAX, i64::MIN/MAX), observed after every op, "
-            "on the view and on the isolated range; chunker: every file of 0..k lines with line lengths from a small set "
+            "on the view and on the isolated range (thorough: additionally every sequence of length 6 over three-op and of length 5 over "
+            "four-op alphabets); chunker: every file of 0..k lines with line lengths from a small set "
             "(empty line, short, long, CRLF / trailing blanks), with and without final newline, every chunk count 0..lines+2, "
             "chunks and per-chunk line streams through FileView+BufReader+StreamingLineReader; indexer: every file of 1..k lines "
             "with lengths from a small set x every run pattern (grouped) x final newline, run-length vectors x one very long "
-            "line at every position, non-grouped chromosome orders, a malformed line at every position. "
+            "line at every position, non-grouped chromosome orders, a malformed line at every position; both routines also on text "
+            "with two-byte UTF-8 characters (seeks land inside a character). "
             "non-trivial = every case except the empty file; distinct = distinct case text")
     CORRESPONDENCE = ("outcomes of FileView read/seek sequences, chunk lists and line streams, index_chroms result and the "
                       "per-chromosome view streams = Model/FileView.v, Model/Chunker.v, Model/Indexer.v")
     TRUSTED = ["std::io::BufReader / read_line / File (regular file semantics: no short reads, seek returns the target)",
                "harness synthesis of BED text from (chromosome, length) lines"]
-    ASSUMPTIONS = ["file length < 2^63 (off_t)", "ASCII input (read_line's UTF-8 validation is not modelled)",
+    ASSUMPTIONS = ["file length < 2^63 (off_t)", "valid UTF-8 input whose lines do not end in non-ASCII white space (the models see bytes and trim ASCII white space)",
                    "no I/O errors of the underlying file", "recursion depth limit 100 of do_index: the grouped-index theorem "
                    "carries the hypothesis that the limit covers the file (see notes/C18.md)"]
     PER_CASE_TIMEOUT = 60.0
@@ -91,6 +93,17 @@ class C18(Prop):
                     alpha[0] = rng.choice([SE(-(w + 1)), SE(-w), SC(-(w + 1)), SS(w), SS(w + 1), R(w), R(w + 1)])
                     yield sx([0, data, a, b, rdepth, alpha, []]), ["view", wt, f"view-len={ln}", f"view-depth={rdepth}",
                                                                    f"view-seqs={6 ** rdepth}", "view-random-alphabet"]
+        if tier != "quick":
+            # longer histories over smaller alphabets: every sequence of length 6 over three ops, of length 5 over four
+            small = [([R(2), SC(-3), SE(-1)], 6), ([R(1), SS(2), SE(-100)], 6), ([R(3), SC(2), SS(U64MAX)], 6),
+                     ([R(1), SC(I64MIN), SC(I64MAX)], 6), ([R(1), SS(1), SC(-1), SE(-2)], 5), ([R(2), SS(4), SC(1), SE(-8)], 5)]
+            for ln in (3, 6):
+                data = [65 + i for i in range(ln)]
+                wins = [(a, b, "win") for a in range(ln + 1) for b in range(a, ln + 1)] + [(ln // 2, U64MAX, "win-past-end")]
+                for a, b, wt in wins:
+                    for alpha, d in small:
+                        yield sx([0, data, a, b, d, alpha, []]), ["view", wt, f"view-len={ln}", f"view-depth={d}",
+                                                                   f"view-seqs={len(alpha) ** d}"]
         # the whole pool, pairs only, on one file
         data = [65 + i for i in range(5)]
         for a in range(6):
@@ -110,6 +123,16 @@ class C18(Prop):
                         continue
                     data = b"\n".join(combo) + (b"\n" if nl and k > 0 else b"")
                     yield sx([1, data, list(range(0, k + 3))]), ["chunker", f"chunker-lines={k}", "final-newline" if nl else "no-final-newline"]
+        # non-ASCII text (two-byte characters): chunk boundaries fall inside a character
+        nk = [b"", "\u00e9".encode(), "a\u00e9\u00e9".encode(), "\u00e9\u00e9\u00e9\u00e9\u00e9".encode()]
+        for k in range(1, (4 if tier == "quick" else 5) + 1):
+            for combo in itertools.product(nk, repeat=k):
+                for nl in (True, False):
+                    if not nl and combo[-1] == b"":
+                        continue
+                    data = b"\n".join(combo) + (b"\n" if nl else b"")
+                    yield sx([1, data, list(range(0, k + 3)) + [len(data), len(data) + 1]]), ["chunker", f"chunker-lines={k}", "non-ascii",
+                                                                                              "final-newline" if nl else "no-final-newline"]
         # text-like: CRLF line ends, trailing blanks, one long line beyond BufReader's 8 KiB buffer
         extra = [b"a\tb \r\nc\r\n\r\nd  ", b"x" * 9000 + b"\ny\n" + b"z" * 20, b"y\n" + b"x" * 9000, b"\n\n\n", b"no newline at all"]
         for data in extra:
@@ -169,6 +192,16 @@ class C18(Prop):
                     lens = [rng.choice([8, 11, 40]) for _ in range(n)]
                     f = files_from(lens, mask); f[bad][0] = 0
                     yield sx([2, f, 1]), ["indexer", "malformed", f"indexer-lines={n}"]
+        # (f) non-ASCII text in the name column (two-byte characters): probes land inside a character
+        nas = [9, 10, 11, 12, 13, 14, 15, 16] if tier == "quick" else list(range(9, 22))
+        for l1 in nas:
+            for l2 in nas:
+                for nl in (1, 0):
+                    yield sx([2, [[1, l1], [2, l2]], nl, 1]), ["indexer", "grouped", "indexer-lines=2", "non-ascii"]
+        nas3 = [9, 12, 15, 16] if tier == "quick" else [9, 10, 12, 15, 16, 19]
+        for lens in itertools.product(nas3, repeat=3):
+            for mask in itertools.product([False, True], repeat=2):
+                yield sx([2, files_from(lens, mask), 1, 1]), ["indexer", "grouped", "indexer-lines=3", "non-ascii"]
         # (e) larger files: longer runs, many chromosomes, random lengths (bisection depth > 3)
         for _ in range(150 if tier == "quick" else 3000):
             nchrom = rng.randint(1, 8)
@@ -176,7 +209,9 @@ class C18(Prop):
             for c in range(1, nchrom + 1):
                 for _ in range(rng.choice([1, 1, 2, 5, 17])):
                     f.append([c, rng.choice([7, 8, 8, 9, 15, 40, 200])])
-            yield sx([2, f, rng.choice([0, 1])]), ["indexer", "grouped", "indexer-larger", f"indexer-lines~{len(f) // 10 * 10}"]
+            filler = rng.choice([0, 0, 1])
+            yield sx([2, f, rng.choice([0, 1]), filler]), ["indexer", "grouped", "indexer-larger", f"indexer-lines~{len(f) // 10 * 10}"] + \
+                (["non-ascii"] if filler else [])
 
     def gen(self, rng, tier):
         yield from self.index_cases(rng, tier)
